@@ -311,7 +311,12 @@ def run(ctx, cfg):
         thr = {c + '_threshold': 0.5 for c in c06.COLS}
         thr['min_n_cycles'] = 1
         df = bc.detect_bursts_cycles(pd.DataFrame(data), **thr)
-        check_call(ctx, bu.recompute_edges, [df, thr], {}, ['df_features', 'threshold_kwargs'])
+        thr2 = {c + '_threshold': ctx.real('thr2_' + c) for c in c06.COLS}
+        for v in thr2.values():
+            ctx.assume(v >= 0)
+            ctx.assume(v <= 1)
+        thr2['min_n_cycles'] = 1
+        check_call(ctx, bu.recompute_edges, [df, thr2], {}, ['df_features', 'threshold_kwargs'])
         return
     if fn in ('limit_df', 'epoch_df', 'drop_samples_df'):
         rows, centre = cfg['rows'], cfg['centre']
